@@ -152,7 +152,7 @@ TYPEMAP = {
     'std::string': 'str_t',
     'std::istream': 'ios_t', 'std::ostream': 'ios_t', 'std::stream': 'ios_t',
     'std::stringstream': 'ios_t', 'std::ostringstream': 'ios_t',
-    'std::istringstream': 'ios_t',
+    'std::istringstream': 'ios_t', 'std::basic_ios<char>': 'ios_t', 'std::ios_base': 'ios_t',
     'std::map<std::string, mpz_ptr>': 'map_str_mpz',
 }
 
@@ -1032,7 +1032,7 @@ class Emitter:
             cls = self.self_class
             objp = 'self'
         else:
-            cls = self.obj_class(obj)
+            cls = self.obj_class(self.strip_noop(obj))
             objp = self.expr(obj, ctx) if me.get('isArrow') else self.addr(obj, ctx)
         stl = cls.startswith(STL_C)
         mname = OPNAMES.get(method, method)
@@ -1095,6 +1095,17 @@ class Emitter:
             for it in items:
                 calls.append(self.stream_item(sp, it, ctx, opname == 'operator<<'))
             self.fire('E7_stream')
+            if any(c.split('(')[0] in self.may_throw for c in calls):
+                # extraction may throw: nothing after a throwing extraction is evaluated
+                if not (stmt and ctx.allow_hoist):
+                    raise ExtractionError('%s: throwing stream extraction used as a value' % self.cname)
+                self.uses_thrown = True
+                for c in calls:
+                    ctx.pre.append(c + ';')
+                    if c.split('(')[0] in self.may_throw:
+                        self.fire('E3_throw_check')
+                        ctx.pre.append('if (__tmcg_thrown) %s' % self.zero_ret())
+                return ''
             if stmt:
                 return '; '.join(calls)
             return '(*(%s, %s))' % (', '.join(calls), sp)
